@@ -82,6 +82,21 @@ def run_live(name, broken="none"):
     return r
 
 
+def run_btls_send(capture):
+    """spec/XcmBtlsSend.tla: btls_send over OpenSSL's record layer; Capture = TRUE is what the code does"""
+    d = vlib.BUILD + "/cfg"
+    os.makedirs(d, exist_ok=True)
+    path = "%s/btlssend_%s_%d.cfg" % (d, capture, os.getpid())
+    with open(path, "w") as f:
+        f.write("SPECIFICATION Spec\nCONSTANTS\n  RecMax = 2\n  Lens = {1, 2, 3}\n  MaxCalls = 4\n  Capture = %s\n"
+                "INVARIANTS C02_WireIsAccepted C02_Range\nCHECK_DEADLOCK FALSE\n" % capture)
+    r = vlib.tlc("XcmBtlsSend", path, workers=2, timeout=600, heap="2g", metadir="%s/btlssend.%s.%d" % (vlib.TLCDIR, capture, os.getpid()))
+    os.unlink(path)
+    if r["error"]:
+        raise InternalError("TLC failed on XcmBtlsSend %s:\n%s" % (capture, r["error"]))
+    return r
+
+
 def run_block(broken="none", ncalls=2, nsig=2):
     """spec/XcmBlock.tla: blocking xcm_send as a loop over the XcmCore operations, signals at every wait (C03, C04)"""
     d = vlib.BUILD + "/cfg"
@@ -116,7 +131,8 @@ def run_tlsready(framed, broken="none"):
 PROPS = {
     "C01": dict(mc=["tcp_oneway", "ux_oneway", "tcp_twoway"], paths=["tcp_oneway", "ux_oneway"],
                 tps=["tcp", "ux", "uxf", "tls", "utls", "utlst", "tcp", "ux"], raw=0.0, profile="C01", blocking=0.25),
-    "C02": dict(mc=["btcp_oneway", "btcp_inj"], paths=["btcp_oneway"], tps=["btcp", "btls", "btcp"], raw=0.0, profile="C02", blocking=0.35),
+    "C02": dict(mc=["btcp_oneway", "btcp_inj"], paths=["btcp_oneway"], tps=["btcp", "btls", "btcp"], raw=0.0, profile="C02", blocking=0.35,
+                btls_send=True),
     "C03": dict(mc=["tcp_oneway", "ux_oneway", "btcp_oneway"], paths=["tcp_oneway"],
                 tps=["tcp", "ux", "btcp", "uxf", "tls", "utls", "btls", "utlst"], raw=0.0, profile="C03", blocking=0.3, block=True),
     "C06": dict(mc=["tcp_oneway_inj", "btcp_inj", "ux_twoway"], dev=[("tcp_dev_epipe", "C06_DrainFirst", "epipe_closes")],
@@ -297,6 +313,26 @@ def check(pid, tier, seed, only_random=False, extra=None):
             violations.append(("design", "TLC: %s violated in liveness configuration %s" % (",".join(r["violated"]), name), rp))
         if r["distinct"] < 50:
             raise InternalError("liveness configuration %s explored only %d states (vacuous)" % (name, r["distinct"]))
+    if spec.get("btls_send"):
+        r = run_btls_send("FALSE")
+        mc_summary["XcmBtlsSend/design"] = dict(distinct=r["distinct"], generated=r["generated"], violated=r["violated"])
+        states += r["distinct"]
+        transitions += r["generated"]
+        if r["violated"]:
+            rp = vlib.save_replay(pid, "tlc_btlssend.txt", r["out"][-20000:])
+            violations.append(("design", "TLC: %s violated in XcmBtlsSend (intended design)" % ",".join(r["violated"]), rp))
+        r = run_btls_send("TRUE")
+        mc_summary["XcmBtlsSend/code (Capture)"] = dict(distinct=r["distinct"], generated=r["generated"], violated=r["violated"],
+                                                          expected="C02_WireIsAccepted")
+        if "C02_WireIsAccepted" in r["violated"]:
+            f = vlib.match_finding(pid, {"tag": "design.btls_capture"})
+            if f:
+                known.append("property=%s %s (TLC counterexample in spec/XcmBtlsSend.tla with Capture = TRUE)" % (pid, f["what"]))
+            else:
+                rp = vlib.save_replay(pid, "tlc_btlssend_capture.txt", r["out"][-20000:])
+                violations.append(("design", "TLC: C02_WireIsAccepted violated by the code's capture behaviour and no finding is recorded", rp))
+        else:
+            notes.append("XcmBtlsSend with Capture = TRUE no longer violates C02_WireIsAccepted: the recorded finding btls_capture is stale")
     if spec.get("block"):
         for broken in ("none", "eintr_after_accept"):
             r = run_block(broken, 2 if tier == "quick" else 3, 2 if tier == "quick" else 3)
